@@ -45,6 +45,7 @@ def run(ctx):
     ctx.rule("C01.D2", "twin construction: migrating entry at (src index, src part) and importing entry at (dst index, dst part) with the same ranges and meta, in assign_dst_slots and limit_migration; deferred migrations merged into the source's stable slots")
     ctx.rule("C01.D3", "commit_migration: predicate truth tables (range, epoch/meta, direction), both twins found before the first write, removed importing ranges merged into the same chunk")
     ctx.rule("C01.D4", "who-may-write chunk content: only broker::{store,update,migrate} (lib + bins); query code writes nothing")
+    ctx.rule("C01.D7", "shared with C10 / C06: structural changes are refused while a migration runs and only slot-less chunks are released (otherwise twins lose their partner or slots their owner); a failover re-issues both twins of every migration it touches")
     ctx.rule("C01.D5", "chunk indexes named by migration metas stay valid: every index-shifting operation on ClusterStore.chunks (retain / remove / sort / insert / truncate ...) is unreachable while a migration is running")
     T = _chunktables.extract(ctx, "C01.D1")
     if T is not None:
@@ -58,6 +59,10 @@ def run(ctx):
     from .C02 import broker_view_lossless
     ctx.rule("C01.D6", "served node / peer lists are built without element-dropping operations (truncating adaptors, keyed collections that overwrite)")
     broker_view_lossless(ctx, "C01.D6")
+    from ..engine import AliasCtx
+    from . import C10 as _c10, C06 as _c06
+    _c10.run(AliasCtx(ctx, "C01.D7", only={"C10.D1", "C10.D2"}))
+    _c06.run(AliasCtx(ctx, "C01.D7", only={"C06.D2"}))
 
 
 def _side_of(sl):
